@@ -13,6 +13,17 @@ SAFE_PUNCT = " !#$%&'()+,;=@[]^_{}~.-"
 ALPHA = "abcdefghijklmnopqrstuvwxyzABCDEFGHIJKLMNOPQRSTUVWXYZ0123456789"
 
 
+# (size, seed) of mode-"nz" contents whose SHA-1 digest happens to be valid UTF-8 (found by search; verified by selfcheck())
+UTF8_SHA1 = [(7, 188267), (7, 325718), (100, 13065), (100, 114349), (5000, 64089), (5000, 89257)]
+
+
+def selfcheck():
+    import hashlib
+    from vf import sandbox
+    for size, seed in UTF8_SHA1:
+        hashlib.sha1(sandbox.content("nz", seed, size)).digest().decode("utf-8")
+
+
 def name_component(cli_safe=False):
     """One path component: valid UTF-8, no '/', NUL, not '.'/'..', <= 24 chars."""
     alphabet = ALPHA + SAFE_PUNCT
@@ -100,6 +111,11 @@ def tree(draw, P, max_files=8, modes=None, single=None, min_files=1, cli_safe=Fa
     if single is None:
         single = draw(st.sampled_from([False, False, False, True]))
     if single:
+        if "nz" in modes and draw(st.integers(0, 11)) == 0:
+            # a tiny region no random search reaches: the single piece's SHA-1 is valid UTF-8 (a lenient decoder
+            # may hand it back as text instead of bytes)
+            size, seed = draw(st.sampled_from(UTF8_SHA1))
+            return {"name": name, "single": True, "files": [{"size": size, "mode": "nz", "seed": seed, "path": []}]}
         f = draw(file_entry(P, modes, big, nonempty=nonempty_total))
         f["path"] = []
         return {"name": name, "single": True, "files": [f]}
